@@ -18,6 +18,7 @@ import time
 from lib import flows, tlc
 from lib.units import SeqUnit, Inconclusive, run_h, validate_file
 
+LTS_KINDS = ["lts", "lts2"]   # List.lts.cfg: all calls, 3 handles; List.lts2.cfg: element-creating calls, 4 handles
 REFERENCE = "List.go"
 SUTS = [REFERENCE, "List.lockfree", "List.threadsafe"]
 
@@ -41,9 +42,9 @@ class ListUnit(SeqUnit):
         if ctx.thorough:
             box["mc2"] = flows.mc(sd, self.module, "deep", timeout=self.mc_timeout)
 
-    def flow_lts(self, ctx, sd, box):
-        edges = os.path.join(ctx.out, "List.edges")
-        cfg = flows._strip_props(flows.read_cfg(sd, self.module, "lts"))
+    def flow_lts(self, ctx, sd, box, kind):
+        edges = os.path.join(ctx.out, "List.%s.edges" % kind)
+        cfg = flows._strip_props(flows.read_cfg(sd, self.module, kind))
         cfg = "SPECIFICATION Spec\n" + cfg + "\nVIEW View\nACTION_CONSTRAINT GenDump\n"
         r = tlc.run(sd, "ListGen", cfg, extra_modules={"ListGen": GEN}, timeout=self.mc_timeout, workers=1)
         n, seen = 0, set()
@@ -53,12 +54,12 @@ class ListUnit(SeqUnit):
                     seen.add(payload)
                     fh.write(payload + "\n")
                     n += 1
-        box["lts"] = (r, n)
+        box[kind] = (r, n)
         if not r.ok() or n == 0:
             return
         walks, depth = self.thorough_walks if ctx.thorough else self.walks
-        prefix = os.path.join(ctx.out, "List")
-        box["walk"] = run_h(ctx, ["listlts", edges, "-suts", ",".join(SUTS), "-seed", str(ctx.seed), "-walks", str(walks),
+        prefix = os.path.join(ctx.out, "List." + kind)
+        box["walk." + kind] = run_h(ctx, ["listlts", edges, "-suts", ",".join(SUTS), "-seed", str(ctx.seed), "-walks", str(walks),
                                   "-depth", str(depth), "-out", prefix], timeout=1500)
 
     def flow_record(self, ctx, box):
@@ -80,8 +81,9 @@ class ListUnit(SeqUnit):
                 errs.append(e)
 
         ths = [threading.Thread(target=guard, args=(self.flow_mc, ctx, sd, box)),
-               threading.Thread(target=guard, args=(self.flow_lts, ctx, sd, box)),
-               threading.Thread(target=guard, args=(self.flow_record, ctx, box))]
+               threading.Thread(target=guard, args=(self.flow_lts, ctx, sd, box, "lts")),
+               threading.Thread(target=guard, args=(self.flow_record, ctx, box)),
+               threading.Thread(target=guard, args=(self.flow_lts, ctx, sd, box, "lts2"))]
         for t in ths:
             t.start()
         # traces can be validated while TLC/walker are still busy (validation runs TLC with one worker)
@@ -94,7 +96,10 @@ class ListUnit(SeqUnit):
         if errs:
             raise errs[0] if isinstance(errs[0], Inconclusive) else Inconclusive("flow failed: %r" % (errs[0],))
         problems += self.finish_mc(ctx, box)
-        problems += self.finish_walks(ctx, box)
+        self.info["lts"] = {}
+        seen = set()
+        for kind in LTS_KINDS:
+            problems += self.finish_walks(ctx, box, kind, seen)
         if problems:
             raise Inconclusive("; ".join(problems))
 
@@ -113,21 +118,20 @@ class ListUnit(SeqUnit):
                 out.append("TLC on List (%s): %s %s (model problem, output in %s)" % (key, r.status, r.violated or "", save))
         return out
 
-    def finish_walks(self, ctx, box):
-        r, n = box["lts"]
+    def finish_walks(self, ctx, box, kind, seen):
+        r, n = box[kind]
         if not r.ok() or n == 0:
-            save = os.path.join(ctx.out, "List.lts.out")
+            save = os.path.join(ctx.out, "List.%s.out" % kind)
             with open(save, "w") as fh:
                 fh.write(r.out)
-            return ["LTS export of List failed: %s (%s)" % (r.status, save)]
-        p = box["walk"]
+            return ["LTS export of List (%s) failed: %s (%s)" % (kind, r.status, save)]
+        p = box["walk." + kind]
         if p.returncode != 0:
             return ["walker died on List: %s" % (p.stderr or p.stdout)[-2000:]]
         out = []
-        self.info["lts"] = {}
         for sut in SUTS:
-            rep = json.load(open(os.path.join(ctx.out, "List.%s.walk.json" % sut)))
-            self.info["lts"][sut] = {"states": rep["states"], "edges": rep["edges"], "covered": rep["edges_covered"],
+            rep = json.load(open(os.path.join(ctx.out, "List.%s.%s.walk.json" % (kind, sut))))
+            self.info["lts"][kind + ":" + sut] = {"states": rep["states"], "edges": rep["edges"], "covered": rep["edges_covered"],
                                      "groups": rep["stimulus_groups"], "groups_covered": rep["stimulus_groups_covered"],
                                      "steps": rep["steps"], "resets": rep["resets"]}
             ctx.bump("lts_edges_total", rep["edges"])
@@ -145,9 +149,8 @@ class ListUnit(SeqUnit):
                     m = mism[0]
                     out.append("the model disagrees with container/list (the reference) on %s: observed %s, model %s" % (
                         json.dumps(m["stimulus"]), json.dumps(m["observed"])[:400], json.dumps(m["expected"])[:400]))
-                    json.dump(m, open(os.path.join(ctx.out, "reference_mismatch.json"), "w"), indent=1)
+                    json.dump(m, open(os.path.join(ctx.out, "reference_mismatch.%s.json" % kind), "w"), indent=1)
             else:
-                seen = set()
                 for m in mism:
                     sig = "%s:lts:%s" % (sut, m["op"])
                     res = m["observed"].get("res")
@@ -160,7 +163,7 @@ class ListUnit(SeqUnit):
                         sut, m["op"], json.dumps(m["stimulus"]), _short(m["observed"]), _short(m["expected"]), len(m["path"]) - 1)
                     ctx.violation(self.name, sig, what, {"kind": "path", "sut": sut, "mismatch": m})
             if not mism and rep["stimulus_groups_covered"] < rep["stimulus_groups"]:
-                out.append("LTS tour of %s covered %d/%d stimulus groups" % (sut, rep["stimulus_groups_covered"], rep["stimulus_groups"]))
+                out.append("LTS tour (%s) of %s covered %d/%d stimulus groups" % (kind, sut, rep["stimulus_groups_covered"], rep["stimulus_groups"]))
         return out
 
     def finish_traces(self, ctx, sd, box):
